@@ -12,6 +12,9 @@
 (*     srv  own http servers (the real HttpServerThreadBase) that came up: the context the   *)
 (*          listening socket was wrapped with and the scheme of base_url                     *)
 (*     reached  "ok" if the phase did what it is for, else "fail"                            *)
+(*   A record "retry" (after a failed first connect) or "restart" (after "subscribe", the    *)
+(*   environment has become the downgrade environment) carries the whole second start_all    *)
+(*   of the same consumer object after stop_all; then the "end" record follows.              *)
 (*   certloader / soap client traces: one record [c, a] (case and actual).                   *)
 (* Clauses that start with "SANITY:" compare the harness with the model (reachability,       *)
 (* vacuity); they are machinery failures, never violations of the code.                      *)
@@ -91,11 +94,23 @@ JudgePhase(c, rec, mAfter) ==
   /\ SrvOK(c, rec.srv)
   /\ SanityOK(c, rec, mAfter)
 
+\* second life of the consumer object (stop_all + start_all): the whole start_all is one record; the connection mode
+\* starts from "init" again and every obligation is the one of the first life (c2: the configuration in the
+\* environment of the second life)
+JudgeAgain(c, c2, rec, mAfter) ==
+  /\ AdvOK(c, rec.adv)
+  \* (an optional consumer is not bound by the property; it may remember that it fell back to plaintext)
+  /\ EvOK(c, IF c.ctls = "optional" THEN "fallback" ELSE "init", rec.ev)
+  /\ SrvOK(c, rec.srv)
+  \* (what an optional consumer remembers of its first life is its own business: no expectation)
+  /\ c.ctls # "optional" => Clause("SANITY:mode_second_life", mAfter = ModeAfterConnect(c2))
+  /\ Clause("SANITY:active:" \o rec.phase, Active(rec.ev, "consumer"))
+
 JudgeEnd(c, rec) ==
   /\ SrvOK(c, rec.srv)
   /\ EvOK(c, mode, rec.ev)
   /\ AdvOK(c, rec.adv)
-  /\ Clause("SANITY:complete", pi = (IF mode \in {"tls", "plain"} THEN NPhases ELSE 1))
+  /\ Clause("SANITY:complete", round = 1 \/ pi = (IF mode \in {"tls", "plain"} THEN NPhases ELSE 1))
   /\ (c.psrv = "own") => Clause("SANITY:own_server_seen:provider", \E i \in 1..Len(rec.srv) : rec.srv[i].party = "provider")
   /\ (c.csrv = "own" /\ mode \in {"tls", "plain"}) =>
         Clause("SANITY:own_server_seen:consumer", \E i \in 1..Len(rec.srv) : rec.srv[i].party = "consumer")
@@ -138,17 +153,28 @@ JudgeFirst(c, rec) ==
 TraceInit == /\ tid \in 1..Len(Traces)
              /\ l = 1
              /\ cfg = CaseOf(Traces[tid][1].c)
-             /\ pi = 0 /\ mode = "init" /\ sub = "none"
+             /\ pi = 0 /\ mode = "init" /\ sub = "none" /\ round = 0
+             /\ env = (IF Traces[tid][1].c.kind = "cfg" THEN Traces[tid][1].c.peer ELSE "yes")
              /\ JudgeFirst(CaseOf(Traces[tid][1].c), Traces[tid][1])
 
 TraceNext == /\ l < Len(Traces[tid])
              /\ LET rec == Traces[tid][l + 1]
                     mAfter == Settled(ModeAfter(mode, rec.ev))
-                IN IF rec.phase = "end"
-                   THEN /\ JudgeEnd(cfg, rec)
-                        /\ mode' = mAfter /\ pi' = pi
-                   ELSE /\ JudgePhase(cfg, rec, mAfter)
-                        /\ mode' = mAfter /\ pi' = pi + 1
+                    mAgain == Settled(ModeAfter("init", rec.ev))
+                IN CASE rec.phase = "end" ->
+                          /\ JudgeEnd(cfg, rec)
+                          /\ mode' = mAfter /\ pi' = pi /\ UNCHANGED <<env, round>>
+                     [] rec.phase = "retry" ->
+                          /\ Clause("SANITY:retry_after_failed_connect", mode = "failed" /\ round = 0)
+                          /\ JudgeAgain(cfg, C, rec, mAgain)
+                          /\ mode' = mAgain /\ pi' = pi /\ round' = 1 /\ env' = env
+                     [] rec.phase = "restart" ->
+                          /\ Clause("SANITY:restart_in_session", mode \in {"tls", "plain"} /\ round = 0 /\ pi = 3)
+                          /\ JudgeAgain(cfg, [cfg EXCEPT !.peer = "no"], rec, mAgain)
+                          /\ mode' = mAgain /\ pi' = pi /\ round' = 1 /\ env' = "no"
+                     [] OTHER ->
+                          /\ JudgePhase(cfg, rec, mAfter)
+                          /\ mode' = mAfter /\ pi' = pi + 1 /\ UNCHANGED <<env, round>>
              /\ l' = l + 1 /\ UNCHANGED <<tid, cfg, sub>>
 
 TraceSpec == TraceInit /\ [][TraceNext]_<<vars, tid, l>>
